@@ -466,6 +466,17 @@ class Describer:
                     if other[0] == "k" and isinstance(other[1], bytes):
                         d["null"] = {"wire": other[1].hex(), "then": "none"}
                         continue
+                # None returned when the UUID built from the bytes equals a constant UUID (possibly one of several: `value in {...}`)
+                import uuid as _uuid
+                ueqs = [c for c, pol in conds if pol and c[0] == "eq" and any(contains(x, w) for x in c[1:]) and
+                        any(isinstance(x, tuple) and x[:1] == ("k",) and isinstance(x[1], _uuid.UUID) for x in c[1:])]
+                if len(ueqs) == 1:
+                    const = next(x[1] for x in ueqs[0][1:] if isinstance(x, tuple) and x[:1] == ("k",) and isinstance(x[1], _uuid.UUID))
+                    if d["null"] is None:
+                        d["null"] = {"wire": const.bytes.hex(), "then": "none"}
+                    else:
+                        d["null"].setdefault("also", []).append(const.bytes.hex())
+                    continue
                 return opaque("None returned under an unrecognised condition")
             if size == 1 and isinstance(val, tuple) and len(val) == 2 and val[0] == "not" and isinstance(val[1], tuple) and len(val[1]) == 3 \
                     and val[1][0] in ("eq", "ne"):
